@@ -765,6 +765,9 @@ def main(run):
     # ---------------- dedicated streams for the open findings and the necessity witnesses
     special(run, texts, progs, lexp)
     _tm(run, "special")
+    import c19num                                   # number / byte-literal spellings x trivia kinds (C19_token_boundary_all_kinds)
+    c19num.stage(run, texts)
+    _tm(run, "num-boundary")
 
     # ---------------- (T1) model vs implementation in Coq
     tie_model(run, texts, progs, lexp, cases, news, lexn, quick)
